@@ -12,9 +12,22 @@
      expr  value | (v X) | (bin add|sub|mul|lt|le|eq A B) | (neg A) | (not A) | (isnil A) | (notnil A)
            | (and A B) | (or A B) | (nilco A B)
      stmt  skip | (seq S...) | (decl X T E) | (infer X E) | (assign X E) | (if C S S) | (probe K E)
-           | (while C S) | (closure F S) | (call F) *)
+           | (while C S) | (closure F S) | (call F)
+   class fragment (Model/C02_Classes.v); H = (h (ct (C P)...) (ovr C...)), class ids are integers
+     (kmem H KT KV)               -> in | out                      extracted `kmem`
+     (kannot FX H (env (X KT)...) KS)
+                                  -> (types (K KT)...)             extracted `kannot` (FX = fixed | found)
+     (krun FX H (env (X KT)...) (vals (X KV)...) KS)
+                                  -> stuck | (log (K KT KV in|out)...)   extracted `krun`, `kmem`
+     (kres H C)                   -> class id | none               extracted `resolve` (dynamic dispatch of `name`)
+     (kstatic H KT)               -> class id | dyn                extracted `static_target`
+     ktype  nil never any (c C) (x C) (or A B) (and A B) (not A)
+     kvalue (o C) | n
+     kcond  (isa X C) (risa X C) (inst X C) (rinst X C) (not K) (and A B) (or A B)
+     kstmt  skip | (seq S...) | (probe K X) | (if KC S S) *)
 open BinNums
 open C02_Types
+open C02_Classes
 
 type sx = A of string | L of sx list
 
@@ -165,6 +178,100 @@ let run (x : sx) : string =
               ^ String.concat " " (List.rev_map entry lg)
               ^ "))"))
   | _ -> failwith "request"
+
+(* ---------------------------------------------------------------- class fragment *)
+let rec kty_of (x : sx) : kty =
+  match x with
+  | A "nil" -> KNil | A "never" -> KNever | A "any" -> KAny
+  | L [ A "c"; A k ] -> KClass (z k)
+  | L [ A "x"; A k ] -> KExact (z k)
+  | L [ A "or"; a; b ] -> KUnion (kty_of a, kty_of b)
+  | L [ A "and"; a; b ] -> KAnd (kty_of a, kty_of b)
+  | L [ A "not"; a ] -> KNot (kty_of a)
+  | _ -> failwith "ktype"
+
+let rec show_kty (t : kty) : string =
+  match t with
+  | KNil -> "nil" | KNever -> "never" | KAny -> "any"
+  | KClass c -> "(c " ^ zs c ^ ")"
+  | KExact c -> "(x " ^ zs c ^ ")"
+  | KUnion (a, b) -> "(or " ^ show_kty a ^ " " ^ show_kty b ^ ")"
+  | KAnd (a, b) -> "(and " ^ show_kty a ^ " " ^ show_kty b ^ ")"
+  | KNot a -> "(not " ^ show_kty a ^ ")"
+
+let kval_of (x : sx) : kval =
+  match x with
+  | L [ A "o"; A k ] -> VObj (z k)
+  | A "n" -> VNilK
+  | _ -> failwith "kvalue"
+
+let show_kval (v : kval) : string = match v with VObj c -> "(o " ^ zs c ^ ")" | VNilK -> "n"
+
+let rec kcond_of (x : sx) : kcond =
+  match x with
+  | L [ A "isa"; A v; A c ] -> CTest (TIsA, z v, z c)
+  | L [ A "risa"; A v; A c ] -> CTest (TRevIsA, z v, z c)
+  | L [ A "inst"; A v; A c ] -> CTest (TInstOf, z v, z c)
+  | L [ A "rinst"; A v; A c ] -> CTest (TRevInstOf, z v, z c)
+  | L [ A "not"; a ] -> CNot (kcond_of a)
+  | L [ A "and"; a; b ] -> CAnd (kcond_of a, kcond_of b)
+  | L [ A "or"; a; b ] -> COr (kcond_of a, kcond_of b)
+  | _ -> failwith "kcond"
+
+let rec kstmt_of (x : sx) : kstmt =
+  match x with
+  | A "skip" -> KSkip
+  | L (A "seq" :: ss) -> List.fold_right (fun s acc -> KSeq (kstmt_of s, acc)) ss KSkip
+  | L [ A "probe"; A k; A v ] -> KProbe (z k, z v)
+  | L [ A "if"; c; a; b ] -> KIf (kcond_of c, kstmt_of a, kstmt_of b)
+  | _ -> failwith "kstmt"
+
+let hier_of (x : sx) : (coq_Z * coq_Z) list * coq_Z list =
+  match x with
+  | L [ A "h"; L (A "ct" :: ps); L (A "ovr" :: os) ] ->
+      ( List.map (function L [ A c; A p ] -> (z c, z p) | _ -> failwith "ct") ps,
+        List.map (function A c -> z c | _ -> failwith "ovr") os )
+  | _ -> failwith "hierarchy"
+
+let fx_of = function A "fixed" -> true | A "found" -> false | _ -> failwith "fx"
+
+let kenv_of (x : sx) : (coq_Z * kty) list =
+  match x with
+  | L (A "env" :: es) -> List.map (function L [ A v; t ] -> (z v, kty_of t) | _ -> failwith "env") es
+  | _ -> failwith "env"
+
+let kvals_of (x : sx) : (coq_Z * kval) list =
+  match x with
+  | L (A "vals" :: es) -> List.map (function L [ A v; w ] -> (z v, kval_of w) | _ -> failwith "vals") es
+  | _ -> failwith "vals"
+
+let krequest (x : sx) : string option =
+  match x with
+  | L [ A "kmem"; h; t; v ] ->
+      let ct, _ = hier_of h in
+      Some (if kmem ct (kty_of t) (kval_of v) then "in" else "out")
+  | L [ A "kannot"; fx; h; env; s ] ->
+      let _ = hier_of h in
+      let l = kannot (fx_of fx) (kenv_of env) (kstmt_of s) in
+      Some ("(types " ^ String.concat " " (List.map (fun (k, t) -> "(" ^ zs k ^ " " ^ show_kty t ^ ")") l) ^ ")")
+  | L [ A "krun"; fx; h; env; vals; s ] -> (
+      let ct, _ = hier_of h in
+      match krun (fx_of fx) ct (kenv_of env) (kvals_of vals) (kstmt_of s) with
+      | None -> Some "stuck"
+      | Some lg ->
+          let entry ((k, t), v) =
+            "(" ^ zs k ^ " " ^ show_kty t ^ " " ^ show_kval v ^ " " ^ (if kmem ct t v then "in" else "out") ^ ")"
+          in
+          Some ("(log " ^ String.concat " " (List.map entry lg) ^ ")"))
+  | L [ A "kres"; h; A c ] -> (
+      let ct, ovr = hier_of h in
+      match resolve ct ovr (z c) with Some d -> Some (zs d) | None -> Some "none")
+  | L [ A "kstatic"; h; t ] -> (
+      let ct, _ = hier_of h in
+      match static_target ct (kty_of t) with Some d -> Some (zs d) | None -> Some "dyn")
+  | _ -> None
+
+let run (x : sx) : string = match krequest x with Some a -> a | None -> run x
 
 let () =
   Zio.iter_lines (fun line ->
